@@ -344,8 +344,17 @@ def _standin(nvars, periodic, ncomp, layout):
     return NS(nvars=tuple(nvars), dx=dx, init=(shape, None, np.dtype('float64')), ncomp=ncomp)
 
 
+def _plain_standin(nvars, periodic):
+    """a problem stand-in without components on a grid of ANY size (the shipped finite-difference problems insist on
+    2^p - 1 points for non-periodic boundaries, i.e. on nested grids); mesh_to_mesh reads nvars, dx and init only"""
+    n = nvars[0]
+    return NS(nvars=tuple(nvars), dx=1.0 / n if periodic else 1.0 / (n + 1), init=(tuple(nvars), None, np.dtype('float64')))
+
+
 PROBLEMS = {
     # name: (constructor(n) -> problem, periodic, ndim, nvars is int)
+    'standin_1d_dirichlet_anysize': (lambda n: _plain_standin((n,), False), False, 1),
+    'standin_2d_dirichlet_anysize': (lambda n: _plain_standin((n, n), False), False, 2),
     'heat1d_periodic': (lambda n: heatNd_unforced(nvars=n, bc='periodic'), True, 1),
     'heat1d_dirichlet': (lambda n: heatNd_unforced(nvars=n, bc='dirichlet-zero', freq=1), False, 1),
     'advection1d_periodic': (lambda n: advectionNd(nvars=n, bc='periodic'), True, 1),
@@ -389,6 +398,9 @@ def mesh_cases(tier):
         add('heat1d_periodic', nf, pairs_all if thorough else pairs_small, nested=(True, False), dtypes=all_dt if nf == 16 else ('mesh',))
         add('heat1d_dirichlet', nf - 1, pairs_all if thorough else pairs_small, nested=(True, False), dtypes=all_dt if nf == 16 else ('mesh',))
     add('heat1d_periodic', 8, [(2, 2), (4, 4)], nested=(True, False))
+    # genuinely non-nested grids: non-periodic with 2^k points per direction (dx = 1/(n+1)); only the general path applies
+    add('standin_1d_dirichlet_anysize', 16, [(2, 2), (4, 2), (2, 4), (6, 4)], nested=(False,))
+    add('standin_2d_dirichlet_anysize', 16, [(2, 2), (4, 2), (2, 4)], nested=(False,), dtypes=('mesh',))
     add('heat1d_dirichlet', 7, [(2, 2), (4, 4)], nested=(True, False))
     add('advection1d_periodic', 16, [(2, 2), (6, 4)], nested=(True, False))
     add('heat1d_periodic', 16, [(2, 2)], same=True)
